@@ -161,8 +161,9 @@ SampleA     == More /\ \E k \in SampCounts : Commit(SampleN(S0, k), [op |-> "sam
 ObserveExtA == More /\ D > 1 /\ Commit(ObserveN(S0, D), [op |-> "obs_ext", n |-> 1])
 \* sample_ext: D samples, recomposed (native sample_algebra_element)
 SampleExtA  == More /\ D > 1 /\ Commit(SampleN(S0, D), [op |-> "sample_ext", n |-> 1])
-\* sample_bits: one base sample, decomposed to bits
-SampleBitsA == More /\ Commit(SampleN(S0, 1), [op |-> "bits", n |-> 3])
+\* sample_bits(n): one base sample, decomposed to bits of which n are returned - also for n = 0 (native sample_bits(0)
+\* draws and discards a sample: the transcript position advances although nothing is returned)
+SampleBitsA == More /\ \E nb \in {0, 3} : Commit(SampleN(S0, 1), [op |-> "bits", n |-> nb])
 \* check_pow_witness(bits > 0): observe the witness, sample bits; with 0 bits: no effect at all
 PowA        == More /\ \E b \in {0, 2} :
                   Commit(IF b = 0 THEN S0 ELSE SampleN(ObserveN(S0, 1), 1), [op |-> "pow", n |-> b])
